@@ -53,7 +53,7 @@ pub struct Case {
     pub tag: u32,
 }
 
-pub const HTTP_SCRIPTS: u8 = 10;
+pub const HTTP_SCRIPTS: u8 = 11;
 pub const S5_SCRIPTS: u8 = 16;
 pub const S4_SCRIPTS: u8 = 6;
 
@@ -70,6 +70,7 @@ pub fn http_script(n: u8) -> (Vec<u8>, bool, bool) {
         6 => (vec![], false, true),
         7 => (b"\x00\x01garbage\r\n\r\n".to_vec(), false, true),
         8 => (b"HTTP/1.1 200 OK\r\n\r\n".to_vec(), true, true),
+        9 => (b"HTTP/1.1 302 Found\r\nLocation: http://elsewhere.test/\r\nContent-Length: 0\r\n\r\n".to_vec(), false, true),
         _ => (b"HTTP/1.0 200 Connection Established\r\nProxy-agent: fake/1.0\r\n\r\n".to_vec(), true, false),
     }
 }
@@ -661,7 +662,7 @@ impl SubCheck for GridCheck {
         "replies"
     }
     fn rule(&self) -> String {
-        "enumerated grid against one real proxy process: client protocol {HTTP CONNECT, SOCKS5, SOCKS5+userpass good/bad, SOCKS4, SOCKS4a} x outcome {direct reachable, direct refused, deny, no rule, UDP to a TCP-only load balancer, BIND / unknown command / non-CONNECT, fake upstream HTTP proxy x 10 reply scripts (200 variants incl. empty reason / HTTP/1.0 / extra headers, 403+body, 407, 502, close, garbage, 200-then-close), fake SOCKS5 upstream x 16 scripts (bound address of each ATYP, no acceptable method, close, garbage, rep 1..9), fake SOCKS4 upstream x 6 scripts (90..93, close, truncated)} x client behaviour {waits, pipelines payload behind the handshake, half-closes right after it}; oracle: success reply iff the upstream path was established and not before the upstream's grant, then an exact echo round trip; otherwise exactly one complete failure reply of the client's protocol (HTTP: status line, headers, exactly Content-Length body bytes), then EOF, never both, and no origin connection on refusal; non-trivial = every case except plain allow+reachable".into()
+        "enumerated grid against one real proxy process: client protocol {HTTP CONNECT, SOCKS5, SOCKS5+userpass good/bad, SOCKS4, SOCKS4a} x outcome {direct reachable, direct refused, deny, no rule, UDP to a TCP-only load balancer, BIND / unknown command / non-CONNECT, fake upstream HTTP proxy x 11 reply scripts (200 variants incl. empty reason / HTTP/1.0 / extra headers, 403+body, 407, 502, 302, close, garbage, 200-then-close), fake SOCKS5 upstream x 16 scripts (bound address of each ATYP, no acceptable method, close, garbage, rep 1..9), fake SOCKS4 upstream x 6 scripts (90..93, close, truncated)} x client behaviour {waits, pipelines payload behind the handshake, half-closes right after it}; oracle: success reply iff the upstream path was established and not before the upstream's grant, then an exact echo round trip; otherwise exactly one complete failure reply of the client's protocol (HTTP: status line, headers, exactly Content-Length body bytes), then EOF, never both, and no origin connection on refusal; non-trivial = every case except plain allow+reachable".into()
     }
     fn run(&self, part: &mut Part) {
         let cases = all_cases(part.tier, part.seed);
